@@ -66,7 +66,7 @@ def p_entry(s):
                 d[k] = p_atom(v)
         return d
     if s[0] == "O":
-        return p_atom(s[1:])
+        return p_val(s[1:])
     raise ValueError(s)
 
 
@@ -235,7 +235,7 @@ class Spec:
                         m[a] = p_atom(b)
                 self.share(int(w[1]))["deck"].append(m)
             else:
-                self.share(int(w[1]))["deck"].append(p_atom(e[1:]))
+                self.share(int(w[1]))["deck"].append(p_val(e[1:]))
         elif k == "ctl":
             c = w[1]
             if c == "start":
@@ -568,7 +568,15 @@ class CHECK(core.Check):
         return "L" + ",".join(self.gen_atom(rng) for _ in range(rng.randrange(3)))
 
     def gen_atom(self, rng):
-        return rng.choice(["i0", "i1", "i2", "T", "F", "N", "sx", "sy"])
+        return rng.choice(["i0", "i1", "i2", "T", "F", "N", "sx", "sy", "s"])
+
+    def gen_entry(self, rng):
+        """a deck entry: mostly mappings (also the empty one), else None / falsy and other non-mappings"""
+        r = rng.random()
+        if r < 0.6:
+            return "M" + ",".join("%s=%s" % (k, self.gen_atom(rng))
+                                  for k in rng.sample(["p", "q", "r", "s"], rng.randrange(4)))
+        return "O" + rng.choice(["N", "N", "N", "i0", "s", "L", "F", "i7", "sx", "Li1", "T"])
 
     def gen_case(self, rng, malformed=False):
         nsh = rng.choice([1, 1, 2, 2, 3])
@@ -640,12 +648,9 @@ class CHECK(core.Check):
                 elif r < 0.88:
                     ops.append("%s %d q %s" % (rng.choice(["poke", "write"]), QS,
                                               rng.choice(["L", "Li1,i2", "i5", "sx"])))
-                elif r < 0.97:
-                    e = "M" + ",".join("%s=%s" % (k, self.gen_atom(rng))
-                                       for k in rng.sample(["p", "q", "r", "s"], rng.randrange(4)))
-                    ops.append("push %d %s" % (QS, e))
                 else:
-                    ops.append("push %d O%s" % (QS, self.gen_atom(rng)))
+                    for _ in range(rng.choice([1, 1, 2, 3, 4])):
+                        ops.append("push %d %s" % (QS, self.gen_entry(rng)))
 
         if malformed and rng.random() < 0.4:
             ops.append("ctl " + rng.choice(["run", "stop", "ready", "abort"]))
@@ -690,8 +695,8 @@ class CHECK(core.Check):
                 for seq in itertools.product(alpha, repeat=n):
                     yield {"kind": "exh", "logs": [{"rule": rule, "base": "e", "old": None, "loggees": [["x", 0, []]]}],
                            "ops": ["stamp 0", "poke 0 value i0", "ctl start"] + list(seq) + ["ctl stop"]}
-        qa = ["append 3 q i1", "append 3 q i2", "push 3 Mp=i1", "push 3 Oi7", "adv 1", "ctl run"]
-        for n in range((4 if tier == "thorough" else 2) + 1):
+        qa = ["append 3 q i1", "append 3 q N", "push 3 Mp=i1", "push 3 M", "push 3 ON", "push 3 Oi0", "adv 1", "ctl run"]
+        for n in range((4 if tier == "thorough" else 3) + 1):
             for seq in itertools.product(qa, repeat=n):
                 yield {"kind": "exh", "logs": [{"rule": "streak", "base": "s", "old": None, "loggees": [["x", 3, ["q"]]]},
                                                {"rule": "deck", "base": "d", "old": None, "loggees": [["x", 3, ["p"]]]}],
